@@ -12,6 +12,7 @@ import (
 	"math/rand"
 	"os"
 	"path/filepath"
+	"sort"
 	"strconv"
 	"strings"
 	"testing"
@@ -115,6 +116,62 @@ func (w *world) logStable() error {
 		co, cb = append(co, o), append(cb, b)
 	}
 	views = append(views, trace.Ev{"who": "client", "owners": co, "backups": cb})
+	// what the client API tells: RoutingTable() of every member's embedded client, Members() of every embedded client and of
+	// a cluster client (names of the listed members, and the one flagged as coordinator)
+	var lists []trace.Ev
+	memberList := func(who string, ms []olric.Member, err error) error {
+		if err != nil {
+			return err
+		}
+		var names, coord []string
+		for _, x := range ms {
+			names = append(names, name(x.Name))
+			if x.Coordinator {
+				coord = append(coord, name(x.Name))
+			}
+		}
+		sort.Strings(names)
+		if names == nil {
+			names = []string{}
+		}
+		if coord == nil {
+			coord = []string{}
+		}
+		lists = append(lists, trace.Ev{"who": who, "names": names, "coordinators": coord})
+		return nil
+	}
+	for _, m := range c.Live() {
+		ec := m.DB.NewEmbeddedClient()
+		ert, err := ec.RoutingTable(context.Background())
+		if err != nil {
+			return err
+		}
+		var eo, eb [][]string
+		for p := uint64(0); p < parts; p++ {
+			o, b := []string{}, []string{}
+			for _, x := range ert[p].PrimaryOwners {
+				o = append(o, name(x))
+			}
+			for _, x := range ert[p].ReplicaOwners {
+				b = append(b, name(x))
+			}
+			eo, eb = append(eo, o), append(eb, b)
+		}
+		views = append(views, trace.Ev{"who": "embedded client of " + nm[m.Name], "owners": eo, "backups": eb})
+		ms, err := ec.Members(context.Background())
+		if err := memberList("embedded client of "+nm[m.Name], ms, err); err != nil {
+			return err
+		}
+	}
+	cc2, err := olric.NewClusterClient([]string{live[0].Name})
+	if err != nil {
+		return err
+	}
+	ms, err := cc2.Members(context.Background())
+	cc2.Close(context.Background())
+	if err := memberList("cluster client", ms, err); err != nil {
+		return err
+	}
 	holds := []trace.Ev{}
 	for _, m := range c.Live() {
 		for p := uint64(0); p < parts; p++ {
@@ -146,7 +203,7 @@ func (w *world) logStable() error {
 		keys = append(keys, trace.Ev{"k": k, "parts": ps, "owners": os})
 	}
 	w.w.Emit(trace.Ev{"t": "stable", "members": members, "coordinator": coords[0], "coordinators": coords, "R": w.R,
-		"lf100": 125, "views": views, "holds": holds, "keys": keys})
+		"lf100": 125, "views": views, "holds": holds, "keys": keys, "lists": lists})
 	return nil
 }
 
